@@ -264,10 +264,12 @@ PACKAGES = [
 ]
 
 
-def conventional(r: random.Random, *, size=None, features=None):
+def conventional(r: random.Random, *, size=None, features=None, package=None):
     """A conventional, resource-oriented API. features: subset of
     {'lro','streaming','custom','second_service','multi_file','nested_resource','deep'}; random if None."""
     pkg, host = r.choice(PACKAGES)
+    if package is not None:
+        pkg, host = package
     allf = ["lro", "streaming", "custom", "second_service", "multi_file", "nested_resource"]
     if features is None:
         features = {f for f in allf if r.random() < 0.45}
